@@ -260,3 +260,333 @@ Proof.
     split; [|exact Hs]. rewrite sync_pos_window by assumption. rewrite Ep. reflexivity.
   - apply (Q_uniq _ _ HQ).
 Qed.
+
+(* ------------------------------------------------------------------------------------------------ *)
+(** * Reset *)
+Lemma in_window_iff cur x : in_window cur x = true <-> x = sub64 cur 1 \/ x = cur \/ x = add64 cur 1.
+Proof. unfold in_window. rewrite !orb_true_iff, !N.eqb_eq. tauto. Qed.
+
+Lemma add64_1 a : a < two64 -> add64 a 1 = if a =? max64 then 0 else a + 1.
+Proof. intros H. unfold max64. destruct (N.eqb_spec a 18446744073709551615); u64; lia. Qed.
+Lemma add64_2 a : a < two64 -> add64 a 2 = if a =? max64 then 1 else if a =? max64 - 1 then 0 else a + 2.
+Proof.
+  intros H. unfold max64. destruct (N.eqb_spec a 18446744073709551615); [u64; lia|].
+  destruct (N.eqb_spec a (18446744073709551615 - 1)); u64; lia.
+Qed.
+Lemma sub64_1 a : sub64 a 1 = if a =? 0 then max64 else a - 1.
+Proof. unfold max64. destruct (N.eqb_spec a 0); u64; destruct (N.leb_spec 1 a); lia. Qed.
+
+(* slot arithmetic by cases on the wrap-around points, then linear arithmetic *)
+Ltac arith :=
+  repeat match goal with
+         | H : context [add64 ?a 1] |- _ => rewrite (add64_1 a) in H by assumption
+         | H : context [add64 ?a 2] |- _ => rewrite (add64_2 a) in H by assumption
+         | H : context [sub64 ?a 1] |- _ => rewrite (sub64_1 a) in H
+         | |- context [add64 ?a 1] => rewrite (add64_1 a) by assumption
+         | |- context [add64 ?a 2] => rewrite (add64_2 a) by assumption
+         | |- context [sub64 ?a 1] => rewrite (sub64_1 a)
+         end;
+  unfold max64, two64 in *;
+  repeat match goal with
+         | |- context [N.eqb ?a ?b] => destruct (N.eqb_spec a b)
+         | H : context [N.eqb ?a ?b] |- _ => destruct (N.eqb_spec a b)
+         end; lia.
+
+Definition mwin (slot : N) (m : smsg) : bool := in_window slot (sm_slot m).
+Definition cwin (slot : N) (c : scontrib) : bool := in_window slot (sc_slot c).
+
+Lemma msg_buf_keep b msgs sl slot : msg_buf_ok b msgs sl -> in_window slot sl = true ->
+  msg_buf_ok b (filter (mwin slot) msgs) sl.
+Proof.
+  intros [m [Eb Hb]] Hw. exists m. split; [exact Eb|]. intros v. rewrite Hb. symmetry. apply find_filter_imp.
+  intros x Hx. unfold msg_at in Hx. apply andb_true_iff in Hx. destruct Hx as [H1 _]. apply N.eqb_eq in H1.
+  unfold mwin. rewrite H1. exact Hw.
+Qed.
+Lemma msg_buf_none msgs sl slot : (forall m, In m msgs -> sm_slot m <> sl) -> msg_buf_ok (Some []) (filter (mwin slot) msgs) sl.
+Proof.
+  intros H. exists []. split; [reflexivity|]. intros v. simpl. symmetry. apply find_none_all.
+  intros x Hx. apply filter_In in Hx. destruct Hx as [Hx _]. unfold msg_at.
+  destruct (N.eqb_spec (sm_slot x) sl) as [E|E]; [exfalso; exact (H x Hx E) | reflexivity].
+Qed.
+Lemma con_buf_keep b cons sl slot : con_buf_ok b cons sl -> in_window slot sl = true ->
+  con_buf_ok b (filter (cwin slot) cons) sl.
+Proof.
+  intros [m [Eb Hb]] Hw. exists m. split; [exact Eb|]. intros r sb. rewrite Hb. f_equal. symmetry. apply filter_filter_imp.
+  intros x Hx. unfold con_at in Hx. apply andb_true_iff in Hx. destruct Hx as [Hx _]. apply andb_true_iff in Hx. destruct Hx as [H1 _].
+  apply N.eqb_eq in H1. unfold cwin. rewrite H1. exact Hw.
+Qed.
+Lemma con_buf_none cons sl slot : (forall c, In c cons -> sc_slot c <> sl) -> con_buf_ok (Some []) (filter (cwin slot) cons) sl.
+Proof.
+  intros H. exists []. split; [reflexivity|]. intros r sb. simpl. symmetry.
+  rewrite filter_none_all; [reflexivity|].
+  intros x Hx. apply filter_In in Hx. destruct Hx as [Hx _]. unfold con_at.
+  destruct (N.eqb_spec (sc_slot x) sl) as [E|E]; [exfalso; exact (H x Hx E) | reflexivity].
+Qed.
+Lemma filter_all {A} (f : A -> bool) l : (forall x, In x l -> f x = true) -> filter f l = l.
+Proof.
+  induction l as [|x l IH]; simpl; intros H; [reflexivity|].
+  rewrite (H x) by (left; reflexivity). f_equal. apply IH. intros y Hy. apply H. right. exact Hy.
+Qed.
+
+Lemma Q_reset p s slot : Q p s -> slot < two64 -> Q (reset p slot) (ss_reset s slot).
+Proof.
+  intros HQ Hs. pose proof (Q_lt _ _ HQ) as Hc.
+  destruct HQ as [Ecur _ Hpm Hcm Hnm Hpc Hcc Hnc Hmw Hcw Hu].
+  assert (Hm_in : forall sl, (sl <> sub64 (ss_cur s) 1 /\ sl <> ss_cur s /\ sl <> add64 (ss_cur s) 1) ->
+                  forall m, In m (ss_msgs s) -> sm_slot m <> sl).
+  { intros sl Hsl m Hm E. destruct (Hmw m Hm) as [Hw _]. apply in_window_iff in Hw. rewrite E in Hw. tauto. }
+  assert (Hc_in : forall sl, (sl <> sub64 (ss_cur s) 1 /\ sl <> ss_cur s /\ sl <> add64 (ss_cur s) 1) ->
+                  forall c, In c (ss_cons s) -> sc_slot c <> sl).
+  { intros sl Hsl c Hm E. destruct (Hcw c Hm) as [Hw _]. apply in_window_iff in Hw. rewrite E in Hw. tauto. }
+  assert (Hrest : (forall m, In m (filter (mwin slot) (ss_msgs s)) -> in_window slot (sm_slot m) = true /\ sm_slot m < two64) /\
+                  (forall c, In c (filter (cwin slot) (ss_cons s)) -> in_window slot (sc_slot c) = true /\ sc_slot c < two64) /\
+                  NoDup (map (fun m => (sm_slot m, sm_val m)) (filter (mwin slot) (ss_msgs s)))).
+  { repeat split.
+    - apply filter_In in H. apply H.
+    - apply filter_In in H. apply (Hmw m). tauto.
+    - apply filter_In in H. apply H.
+    - apply filter_In in H. apply (Hcw c). tauto.
+    - clear -Hu. induction (ss_msgs s) as [|x l IH]; simpl; [constructor|].
+      inversion Hu as [|? ? Hn Hd]; subst. destruct (mwin slot x); simpl; [|apply IH; exact Hd].
+      constructor; [|apply IH; exact Hd]. intros Hin. apply Hn. apply in_map_iff in Hin. destruct Hin as [y [E Hy]].
+      apply filter_In in Hy. apply in_map_iff. exists y. tauto. }
+  destruct Hrest as [R1 [R2 R3]].
+  unfold reset, reset_gen, ss_reset. rewrite Ecur. cbn [fx_reset_skip fixed andb].
+  fold (mwin slot) (cwin slot).
+  destruct (N.eqb_spec (ss_cur s) (add64 slot 1)) as [EA|NA].
+  { (* one slot back *)
+    constructor; cbn [s_cur s_pc s_cc s_nc s_pm s_cm s_nm ss_cur ss_msgs ss_cons]; try assumption; try reflexivity.
+    - apply msg_buf_none. apply Hm_in. clear -EA Hs Hc. arith.
+    - replace slot with (sub64 (ss_cur s) 1) at 2 by (clear -EA Hs Hc; arith). apply msg_buf_keep; [exact Hpm|].
+      apply in_window_iff. clear -EA Hs Hc. right. left. arith.
+    - replace (add64 slot 1) with (ss_cur s) by (clear -EA; congruence). apply msg_buf_keep; [exact Hcm|].
+      apply in_window_iff. right. right. exact EA.
+    - apply con_buf_none. apply Hc_in. clear -EA Hs Hc. arith.
+    - replace slot with (sub64 (ss_cur s) 1) at 2 by (clear -EA Hs Hc; arith). apply con_buf_keep; [exact Hpc|].
+      apply in_window_iff. clear -EA Hs Hc. right. left. arith.
+    - replace (add64 slot 1) with (ss_cur s) by (clear -EA; congruence). apply con_buf_keep; [exact Hcc|].
+      apply in_window_iff. right. right. exact EA. }
+  destruct (N.eqb_spec (ss_cur s) slot) as [EB|NB].
+  { (* same slot: nothing moves *)
+    subst slot.
+    rewrite (filter_all (mwin (ss_cur s))) by (intros x Hx; exact (proj1 (Hmw x Hx))).
+    rewrite (filter_all (cwin (ss_cur s))) by (intros x Hx; exact (proj1 (Hcw x Hx))).
+    constructor; cbn [ss_cur ss_msgs ss_cons]; assumption. }
+  destruct (N.eqb_spec (add64 (ss_cur s) 1) slot) as [EC|NC].
+  { (* one slot forward *)
+    constructor; cbn [s_cur s_pc s_cc s_nc s_pm s_cm s_nm ss_cur ss_msgs ss_cons]; try assumption; try reflexivity.
+    - replace (sub64 slot 1) with (ss_cur s) by (clear -EC Hs Hc; arith). apply msg_buf_keep; [exact Hcm|].
+      apply in_window_iff. left. clear -EC Hs Hc. arith.
+    - replace slot with (add64 (ss_cur s) 1) at 2 by congruence. apply msg_buf_keep; [exact Hnm|].
+      apply in_window_iff. right. left. exact EC.
+    - apply msg_buf_none. apply Hm_in. clear -EC Hs Hc. arith.
+    - replace (sub64 slot 1) with (ss_cur s) by (clear -EC Hs Hc; arith). apply con_buf_keep; [exact Hcc|].
+      apply in_window_iff. left. clear -EC Hs Hc. arith.
+    - replace slot with (add64 (ss_cur s) 1) at 2 by congruence. apply con_buf_keep; [exact Hnc|].
+      apply in_window_iff. right. left. exact EC.
+    - apply con_buf_none. apply Hc_in. clear -EC Hs Hc. arith. }
+  destruct (N.eqb_spec (ss_cur s) (add64 slot 2)) as [ED|ND].
+  { (* two slots back: the old previous slot is the new next slot *)
+    constructor; cbn [s_cur s_pc s_cc s_nc s_pm s_cm s_nm ss_cur ss_msgs ss_cons]; try assumption; try reflexivity.
+    - apply msg_buf_none. apply Hm_in. clear -ED Hs Hc. arith.
+    - apply msg_buf_none. apply Hm_in. clear -ED Hs Hc. arith.
+    - replace (add64 slot 1) with (sub64 (ss_cur s) 1) by (clear -ED Hs Hc; arith). apply msg_buf_keep; [exact Hpm|].
+      apply in_window_iff. right. right. clear -ED Hs Hc. arith.
+    - apply con_buf_none. apply Hc_in. clear -ED Hs Hc. arith.
+    - apply con_buf_none. apply Hc_in. clear -ED Hs Hc. arith.
+    - replace (add64 slot 1) with (sub64 (ss_cur s) 1) by (clear -ED Hs Hc; arith). apply con_buf_keep; [exact Hpc|].
+      apply in_window_iff. right. right. clear -ED Hs Hc. arith. }
+  destruct (N.eqb_spec (add64 (ss_cur s) 2) slot) as [EE|NE].
+  { (* one Reset skipped: the old next slot is the new previous slot *)
+    constructor; cbn [s_cur s_pc s_cc s_nc s_pm s_cm s_nm ss_cur ss_msgs ss_cons]; try assumption; try reflexivity.
+    - replace (sub64 slot 1) with (add64 (ss_cur s) 1) by (clear -EE Hs Hc; arith). apply msg_buf_keep; [exact Hnm|].
+      apply in_window_iff. left. clear -EE Hs Hc. arith.
+    - apply msg_buf_none. apply Hm_in. clear -EE Hs Hc. arith.
+    - apply msg_buf_none. apply Hm_in. clear -EE Hs Hc. arith.
+    - replace (sub64 slot 1) with (add64 (ss_cur s) 1) by (clear -EE Hs Hc; arith). apply con_buf_keep; [exact Hnc|].
+      apply in_window_iff. left. clear -EE Hs Hc. arith.
+    - apply con_buf_none. apply Hc_in. clear -EE Hs Hc. arith.
+    - apply con_buf_none. apply Hc_in. clear -EE Hs Hc. arith. }
+  (* far away: nothing of the old window is inside the new one *)
+  constructor; cbn [s_cur s_pc s_cc s_nc s_pm s_cm s_nm ss_cur ss_msgs ss_cons]; try assumption; try reflexivity.
+  - apply msg_buf_none. apply Hm_in. clear -NA NB NC ND NE Hs Hc. arith.
+  - apply msg_buf_none. apply Hm_in. clear -NA NB NC ND NE Hs Hc. arith.
+  - apply msg_buf_none. apply Hm_in. clear -NA NB NC ND NE Hs Hc. arith.
+  - apply con_buf_none. apply Hc_in. clear -NA NB NC ND NE Hs Hc. arith.
+  - apply con_buf_none. apply Hc_in. clear -NA NB NC ND NE Hs Hc. arith.
+  - apply con_buf_none. apply Hc_in. clear -NA NB NC ND NE Hs Hc. arith.
+Qed.
+
+(* ------------------------------------------------------------------------------------------------ *)
+(** * Select, contribution lists *)
+Lemma select_spec m root : forall members,
+  select (Some m) root members =
+  Ok (flat_map (fun v => match alookup N.eqb v m with
+                         | Some msg => if sm_root msg =? root then [msg] else []
+                         | None => []
+                         end) members).
+Proof.
+  induction members as [|v rest IH]; cbn [select select_gen flat_map nlookup]; [reflexivity|].
+  fold (select (Some m) root rest). rewrite IH.
+  destruct (alookup N.eqb v m) as [msg|]; cbn [fx_select_nil fixed bind]; [|reflexivity].
+  destruct (sm_root msg =? root); reflexivity.
+Qed.
+Lemma filter_unique_find msgs sl v root : NoDup (map (fun m => (sm_slot m, sm_val m)) msgs) ->
+  filter (fun m => (sm_slot m =? sl) && (sm_val m =? v) && (sm_root m =? root)) msgs =
+  match find (msg_at sl v) msgs with
+  | Some msg => if sm_root msg =? root then [msg] else []
+  | None => []
+  end.
+Proof.
+  induction msgs as [|x l IH]; simpl; intros Hnd; [reflexivity|]. inversion Hnd as [|? ? Hn Hd]; subst.
+  unfold msg_at at 1. destruct ((sm_slot x =? sl) && (sm_val x =? v)) eqn:E; cbn [andb].
+  - assert (Hrest : filter (fun m => (sm_slot m =? sl) && (sm_val m =? v) && (sm_root m =? root)) l = []).
+    { apply filter_none_all. intros y Hy. destruct ((sm_slot y =? sl) && (sm_val y =? v)) eqn:Ey; [|reflexivity].
+      exfalso. apply Hn. apply andb_true_iff in E, Ey. destruct E as [E1 E2], Ey as [E3 E4]. apply N.eqb_eq in E1, E2, E3, E4.
+      apply in_map_iff. exists y. split; [congruence | exact Hy]. }
+    rewrite Hrest. destruct (sm_root x =? root); reflexivity.
+  - apply IH. exact Hd.
+Qed.
+
+Lemma Q_select p s pos root members : Q p s -> pos = 0 \/ pos = 1 \/ pos = 2 ->
+  select (get_msg p pos) root members = Ok (ss_select s pos root members).
+Proof.
+  intros HQ Hpos. destruct (get_msg_ok p s pos HQ Hpos) as [m [Eb Hb]]. rewrite Eb, select_spec. f_equal.
+  unfold ss_select. apply flat_map_ext. intros v. rewrite Hb. symmetry. apply filter_unique_find. apply (Q_uniq _ _ HQ).
+Qed.
+Lemma Q_contribs p s pos root sub : Q p s -> pos = 0 \/ pos = 1 \/ pos = 2 ->
+  contribs_at p pos root sub = ss_contribs s pos root sub.
+Proof.
+  intros HQ Hpos. destruct (get_con_ok p s pos HQ Hpos) as [m [Eb Hb]]. unfold contribs_at, ss_contribs. rewrite Eb.
+  cbn [nlookup]. transitivity (lookup2 m root sub); [unfold lookup2; destruct (alookup N.eqb root m); reflexivity|].
+  rewrite Hb. reflexivity.
+Qed.
+
+(* ------------------------------------------------------------------------------------------------ *)
+(** * All operation sequences *)
+Definition sop_ok (op : sop) : Prop :=
+  sop_wf op /\ match op with
+               | SSelect pos _ _ => pos = 0 \/ pos = 1 \/ pos = 2
+               | SContribs pos _ _ => pos = 0 \/ pos = 1 \/ pos = 2
+               | _ => True
+               end.
+
+Lemma Q_step p s op : Q p s -> sop_ok op ->
+  exists p', sp_step fixed p op = (Some p', snd (ss_step s op)) /\ Q p' (fst (ss_step s op)).
+Proof.
+  intros HQ [Hwf Hpos]. destruct op as [m|c|slot|pos root ms|pos root sub|]; cbn [sp_step ss_step fst snd] in *.
+  - destruct (Q_add_msg p s m HQ Hwf) as [p' [E HQ']]. rewrite E. exists p'. split; [reflexivity | exact HQ'].
+  - destruct (Q_add_con p s c HQ Hwf) as [p' [E HQ']]. rewrite E. exists p'. split; [reflexivity | exact HQ'].
+  - exists (reset p slot). split; [reflexivity | apply Q_reset; assumption].
+  - fold (select (get_msg p pos) root ms). rewrite (Q_select p s pos root ms HQ Hpos). exists p. split; [reflexivity | exact HQ].
+  - rewrite (Q_contribs p s pos root sub HQ Hpos). exists p. split; [reflexivity | exact HQ].
+  - rewrite (Q_cur _ _ HQ). exists p. split; [reflexivity | exact HQ].
+Qed.
+Lemma sp_run_rel : forall ops p s, Q p s -> Forall sop_ok ops -> sp_run fixed p ops = ss_run s ops.
+Proof.
+  induction ops as [|op ops IH]; intros p s HQ Hwf; cbn [sp_run ss_run]; [reflexivity|].
+  inversion Hwf; subst. destruct (Q_step p s op HQ H1) as [p' [E HQ']]. rewrite E. f_equal. apply IH; assumption.
+Qed.
+(* refinement: on every operation sequence the three-buffer pool answers what the windowed list answers *)
+Theorem sp_refines : forall ops, Forall sop_ok ops -> sp_run fixed sp_init ops = ss_run ss_init ops.
+Proof. intros ops H. apply sp_run_rel; [exact Q_init | exact H]. Qed.
+
+Lemma ss_run_no_panic : forall ops s, ~ In SRPanic (ss_run s ops).
+Proof.
+  induction ops as [|op ops IH]; intros s; simpl; [tauto|].
+  intros [H|H]; [destruct op; simpl in H; discriminate | exact (IH _ H)].
+Qed.
+Theorem sp_no_panic : forall ops, Forall sop_ok ops -> ~ In SRPanic (sp_run fixed sp_init ops).
+Proof. intros ops H. rewrite sp_refines by exact H. apply ss_run_no_panic. Qed.
+
+(* ------------------------------------------------------------------------------------------------ *)
+(** * The clauses on the Spec *)
+Definition ss_after (ops : list sop) : sspec := fold_left (fun s op => fst (ss_step s op)) ops ss_init.
+Lemma ss_after_snoc ops op : ss_after (ops ++ [op]) = fst (ss_step (ss_after ops) op).
+Proof. unfold ss_after. rewrite fold_left_app. reflexivity. Qed.
+Lemma ss_run_app : forall ops s op,
+  ss_run s (ops ++ [op]) = ss_run s ops ++ [snd (ss_step (fold_left (fun s op => fst (ss_step s op)) ops s) op)].
+Proof. induction ops as [|o ops IH]; intros s op; simpl; [reflexivity | rewrite IH; reflexivity]. Qed.
+Theorem sp_next_answer : forall ops op, Forall sop_ok ops -> sop_ok op ->
+  sp_run fixed sp_init (ops ++ [op]) = sp_run fixed sp_init ops ++ [snd (ss_step (ss_after ops) op)].
+Proof.
+  intros ops op H Hop. rewrite !sp_refines; [apply ss_run_app | exact H | apply Forall_app; split; [exact H | constructor; [exact Hop | constructor]]].
+Qed.
+
+(* a message / contribution is stored iff its slot is one of cur-1, cur, cur+1 (mod 2^64); otherwise an error *)
+Theorem ss_add_window s m : snd (ss_add_msg s m) = in_window (ss_cur s) (sm_slot m) /\
+  (in_window (ss_cur s) (sm_slot m) = true -> In m (ss_msgs (fst (ss_add_msg s m)))) /\
+  (in_window (ss_cur s) (sm_slot m) = false -> fst (ss_add_msg s m) = s).
+Proof.
+  unfold ss_add_msg. destruct (in_window (ss_cur s) (sm_slot m)); cbn [fst snd ss_msgs]; repeat split; try discriminate; try reflexivity.
+  intros _. apply in_or_app. right. left. reflexivity.
+Qed.
+Theorem ss_add_con_window s c : snd (ss_add_con s c) = in_window (ss_cur s) (sc_slot c) /\
+  (in_window (ss_cur s) (sc_slot c) = true -> ss_cons (fst (ss_add_con s c)) = ss_cons s ++ [c]) /\
+  (in_window (ss_cur s) (sc_slot c) = false -> fst (ss_add_con s c) = s).
+Proof.
+  unfold ss_add_con. destruct (in_window (ss_cur s) (sc_slot c)); cbn [fst snd ss_cons]; repeat split; try discriminate; reflexivity.
+Qed.
+(* query_sound: Select returns only messages that were added, for the asked slot, root and members *)
+Definition s_added_msgs (ops : list sop) : list smsg := flat_map (fun op => match op with SAddMsg m => [m] | _ => [] end) ops.
+Definition s_added_cons (ops : list sop) : list scontrib := flat_map (fun op => match op with SAddCon c => [c] | _ => [] end) ops.
+Lemma ss_msgs_added : forall ops m, In m (ss_msgs (ss_after ops)) -> In m (s_added_msgs ops).
+Proof.
+  induction ops as [|op ops IH] using rev_ind; intros m; [simpl; tauto|].
+  rewrite ss_after_snoc. unfold s_added_msgs. rewrite flat_map_app, in_app_iff. fold (s_added_msgs ops).
+  destruct op as [m'|c|slot|pos root ms|pos root sub|]; cbn [ss_step fst flat_map app]; try (intros H; left; apply IH; exact H).
+  - unfold ss_add_msg. destruct (in_window _ _); cbn [fst ss_msgs]; [|intros H; left; apply IH; exact H].
+    intros H. apply in_app_or in H. destruct H as [H|[<-|[]]]; [left; apply IH; apply filter_In in H; tauto | right; left; reflexivity].
+  - unfold ss_add_con. destruct (in_window _ _); cbn [fst ss_msgs]; intros H; left; apply IH; exact H.
+  - unfold ss_reset. cbn [ss_msgs]. intros H. apply filter_In in H. left. apply IH. tauto.
+Qed.
+Lemma ss_cons_added : forall ops c, In c (ss_cons (ss_after ops)) -> In c (s_added_cons ops).
+Proof.
+  induction ops as [|op ops IH] using rev_ind; intros c; [simpl; tauto|].
+  rewrite ss_after_snoc. unfold s_added_cons. rewrite flat_map_app, in_app_iff. fold (s_added_cons ops).
+  destruct op as [m'|c'|slot|pos root ms|pos root sub|]; cbn [ss_step fst flat_map app]; try (intros H; left; apply IH; exact H).
+  - unfold ss_add_msg. destruct (in_window _ _); cbn [fst ss_cons]; intros H; left; apply IH; exact H.
+  - unfold ss_add_con. destruct (in_window _ _); cbn [fst ss_cons]; [|intros H; left; apply IH; exact H].
+    intros H. apply in_app_or in H. destruct H as [H|[<-|[]]]; [left; apply IH; exact H | right; left; reflexivity].
+  - unfold ss_reset. cbn [ss_cons]. intros H. apply filter_In in H. left. apply IH. tauto.
+Qed.
+Theorem ss_select_sound : forall ops pos root members m, In m (ss_select (ss_after ops) pos root members) ->
+  In m (s_added_msgs ops) /\ sm_slot m = pos_slot (ss_cur (ss_after ops)) pos /\ sm_root m = root /\ In (sm_val m) members.
+Proof.
+  intros ops pos root members m H. unfold ss_select in H. apply in_flat_map in H. destruct H as [v [Hv H]].
+  apply filter_In in H. destruct H as [H Hc]. apply andb_true_iff in Hc. destruct Hc as [Hc H3]. apply andb_true_iff in Hc.
+  destruct Hc as [H1 H2]. apply N.eqb_eq in H1, H2, H3. subst v.
+  repeat split; [apply ss_msgs_added; exact H | exact H1 | exact H3 | exact Hv].
+Qed.
+Theorem ss_contribs_sound : forall ops pos root sub x, In x (ss_contribs (ss_after ops) pos root sub) ->
+  exists c, In c (s_added_cons ops) /\ x = (sc_bits c, sc_sig c) /\
+            sc_slot c = pos_slot (ss_cur (ss_after ops)) pos /\ sc_root c = root /\ sc_subnet c = sub.
+Proof.
+  intros ops pos root sub x H. unfold ss_contribs in H. apply in_map_iff in H. destruct H as [c [E H]].
+  apply filter_In in H. destruct H as [H Hc]. apply andb_true_iff in Hc. destruct Hc as [Hc H3]. apply andb_true_iff in Hc.
+  destruct Hc as [H1 H2]. apply N.eqb_eq in H1, H2, H3.
+  exists c. repeat split; [apply ss_cons_added; exact H | symmetry; exact E | exact H1 | exact H2 | exact H3].
+Qed.
+(* prune_exact for the slot rotation: Reset(slot) keeps exactly the items whose slot is still within slot-1..slot+1 *)
+Theorem ss_reset_exact s slot :
+  ss_cur (ss_reset s slot) = slot /\
+  (forall m, In m (ss_msgs (ss_reset s slot)) <-> In m (ss_msgs s) /\ in_window slot (sm_slot m) = true) /\
+  (forall c, In c (ss_cons (ss_reset s slot)) <-> In c (ss_cons s) /\ in_window slot (sc_slot c) = true) /\
+  ss_cons (ss_reset s slot) = filter (fun c => in_window slot (sc_slot c)) (ss_cons s).
+Proof.
+  unfold ss_reset. cbn [ss_cur ss_msgs ss_cons]. split; [reflexivity|]. split; [intros m; apply filter_In|].
+  split; [intros c; apply filter_In | reflexivity].
+Qed.
+(* query_complete for contributions (the pool's aggregates): every contribution accepted is listed, in arrival order,
+   until a Reset moves the window past its slot *)
+Theorem ss_contribs_complete s c : in_window (ss_cur s) (sc_slot c) = true -> ss_cur s < two64 -> sc_slot c < two64 ->
+  exists pos, (pos = 0 \/ pos = 1 \/ pos = 2) /\
+    In (sc_bits c, sc_sig c) (ss_contribs (fst (ss_add_con s c)) pos (sc_root c) (sc_subnet c)).
+Proof.
+  intros Hw Hc Hs. pose proof Hw as Hw'. rewrite sync_pos_window in Hw' by assumption.
+  destruct (sync_pos (ss_cur s) (sc_slot c)) as [pos|] eqn:Ep; [|discriminate].
+  destruct (sync_pos_slot _ _ _ Hc Hs Ep) as [Esl Hpos]. exists pos. split; [exact Hpos|].
+  unfold ss_add_con. rewrite Hw. cbn [fst]. unfold ss_contribs. cbn [ss_cur ss_cons].
+  apply in_map_iff. exists c. split; [reflexivity|]. apply filter_In. split; [apply in_or_app; right; left; reflexivity|].
+  rewrite <- Esl, !N.eqb_refl. reflexivity.
+Qed.
